@@ -78,7 +78,12 @@ fn main() {
         let amounts: Vec<BigUint> = ws[2..].iter().map(|a| BigUint::parse_bytes(a.as_bytes(), 10).expect("dec")).collect();
         let (total, count) = run_case(&amounts, k);
         let exact: BigUint = amounts.iter().sum();
-        if total != exact.to_string() {
+        if exact >= (BigUint::from(1u8) << 256) {
+            // hypothesis of cli_summary_exact_partial (SumRepresentable) not met: the known finding, not a new failure
+            if total != exact.to_string() {
+                out.known_hit("K-s-cost-sums-wrap", &format!("`{l}`: reported total {total}, exact sum {exact} is not representable"));
+            }
+        } else if total != exact.to_string() {
             out.oracle_fail("cli-total-is-exact-sum", l, &format!("reported total {total}, exact sum of the {} upload costs is {exact}", amounts.len()));
         }
         if count != amounts.len() {
